@@ -83,7 +83,8 @@ Inductive prog :=
 | Call (p : prog)                        (* function call boundary: return inside p ends p only *)
 | Memo (n : nat) (p : prog)              (* memoize_when_activated slot n *)
 | CacheOn | CacheOff                     (* oneshot enter / exit *)
-| LoadNames (n : nat).                   (* a list computed from data already read (no access): world list n *)
+| Collect (n : nat)                      (* if the current loop entry is in world list n, remember it *)
+| LoadNames.                             (* the entries remembered so far become the list to iterate; forget them *)
 
 (* except clauses in order; an exception no clause matches propagates *)
 Fixpoint handlers (hs : list (hpat * prog)) : prog :=
@@ -120,9 +121,10 @@ Record st := {
   s_log : list (akind * fid * string);      (* ... and which: kind, file, loop entry (most recent first) *)
   s_data : data; s_cur : string;
   s_flags : list nat;                       (* flags that are set *)
-  s_cache : bool; s_slots : list (nat * data) }.
+  s_cache : bool; s_slots : list (nat * data);
+  s_acc : list string }.                    (* entries collected so far (most recent first), see [Collect] *)
 Definition st0 := {| s_idx := 0; s_log := []; s_data := data0; s_cur := ""; s_flags := [];
-                     s_cache := false; s_slots := [] |}.
+                     s_cache := false; s_slots := []; s_acc := [] |}.
 
 Inductive sig := SNormal | SReturn | SRaise (x : xc).
 
@@ -130,22 +132,28 @@ Definition flag_on (s : st) (n : nat) := existsb (Nat.eqb n) (s_flags s).
 Definition set_flag (s : st) (n : nat) (b : bool) : st :=
   {| s_idx := s_idx s; s_log := s_log s; s_data := s_data s; s_cur := s_cur s;
      s_flags := (if b then n :: s_flags s else filter (fun m => negb (Nat.eqb n m)) (s_flags s));
-     s_cache := s_cache s; s_slots := s_slots s |}.
+     s_cache := s_cache s; s_slots := s_slots s; s_acc := s_acc s |}.
 Definition set_cur (s : st) (c : string) : st :=
   {| s_idx := s_idx s; s_log := s_log s; s_data := s_data s; s_cur := c; s_flags := s_flags s;
-     s_cache := s_cache s; s_slots := s_slots s |}.
+     s_cache := s_cache s; s_slots := s_slots s; s_acc := s_acc s |}.
 Definition set_data (s : st) (d : data) : st :=
   {| s_idx := s_idx s; s_log := s_log s; s_data := d; s_cur := s_cur s; s_flags := s_flags s;
-     s_cache := s_cache s; s_slots := s_slots s |}.
+     s_cache := s_cache s; s_slots := s_slots s; s_acc := s_acc s |}.
 Definition set_cache (s : st) (b : bool) : st :=
   {| s_idx := s_idx s; s_log := s_log s; s_data := s_data s; s_cur := s_cur s; s_flags := s_flags s;
-     s_cache := b; s_slots := [] |}.
+     s_cache := b; s_slots := []; s_acc := s_acc s |}.
 Definition put_slot (s : st) (n : nat) : st :=
   {| s_idx := s_idx s; s_log := s_log s; s_data := s_data s; s_cur := s_cur s; s_flags := s_flags s;
-     s_cache := s_cache s; s_slots := (n, s_data s) :: s_slots s |}.
+     s_cache := s_cache s; s_slots := (n, s_data s) :: s_slots s; s_acc := s_acc s |}.
+Definition push_acc (s : st) : st :=
+  {| s_idx := s_idx s; s_log := s_log s; s_data := s_data s; s_cur := s_cur s; s_flags := s_flags s;
+     s_cache := s_cache s; s_slots := s_slots s; s_acc := s_cur s :: s_acc s |}.
+Definition clear_acc (s : st) : st :=
+  {| s_idx := s_idx s; s_log := s_log s; s_data := s_data s; s_cur := s_cur s; s_flags := s_flags s;
+     s_cache := s_cache s; s_slots := s_slots s; s_acc := [] |}.
 Definition tick (s : st) (k : akind) (f : fid) (cur : string) : st :=
   {| s_idx := S (s_idx s); s_log := (k, f, cur) :: s_log s; s_data := s_data s; s_cur := s_cur s;
-     s_flags := s_flags s; s_cache := s_cache s; s_slots := s_slots s |}.
+     s_flags := s_flags s; s_cache := s_cache s; s_slots := s_slots s; s_acc := s_acc s |}.
 Fixpoint find_slot (l : list (nat * data)) (n : nat) : option data :=
   match l with [] => None | (m, d) :: r => if Nat.eqb n m then Some d else find_slot r n end.
 
@@ -202,8 +210,10 @@ Fixpoint exec (p : prog) (cx : xc) (s : st) {struct p} : sig * st :=
       else exec p cx s
   | CacheOn => (SNormal, set_cache s true)
   | CacheOff => (SNormal, set_cache s false)
-  | LoadNames n =>
-      (SNormal, set_data s {| d_empty := false; d_zombie := false; d_names := w_names w n; d_link := LOtherLink |})
+  | Collect n =>
+      (SNormal, if existsb (String.eqb (s_cur s)) (w_names w n) then push_acc s else s)
+  | LoadNames =>
+      (SNormal, clear_acc (set_data s {| d_empty := false; d_zombie := false; d_names := rev (s_acc s); d_link := LOtherLink |}))
   end.
 End Exec.
 
@@ -252,12 +262,22 @@ Definition parse_stat := Call (wrapped (Memo 0 (bcat Self FStat))).
 Definition read_status := Call (wrapped (Memo 1 (bcat Self FStatus))).
 Definition read_smaps := Call (wrapped (Memo 2 (bcat Self FSmaps))).
 
-(* _readlink(path, fallback='') *)
+(* _readlink(path, fallback=''): on ENOENT/ESRCH probe /proc/<pid> with os.lstat (a refusal of the probe
+   propagates to wrap_exceptions); still there: zombie check, fallback; else re-raise *)
 Definition readlink_fb (f : fid) :=
   Call (Seq (SetFlag F_FALLBACK false)
     (Try (acc KReadlink Self f)
        (handlers [(HFnfEsrch,
-          Seq (Try (acc KLstat Self FDir) (handlers [(HOSError, Skip)])      (* os.path.lexists *)
+          Seq (Try (acc KLstat Self FDir) (handlers [(HFnfEsrch, Skip)])
+                   (Seq (raise_if_zombie Self FStat) (Seq (SetFlag F_FALLBACK true) Ret)))
+              Reraise)])
+       Ret)).
+(* the code before commit 4ee76b0: os.path.lexists swallowed every OSError of the probe *)
+Definition legacy_readlink_fb (f : fid) :=
+  Call (Seq (SetFlag F_FALLBACK false)
+    (Try (acc KReadlink Self f)
+       (handlers [(HFnfEsrch,
+          Seq (Try (acc KLstat Self FDir) (handlers [(HOSError, Skip)])
                    (Seq (raise_if_zombie Self FStat) (Seq (SetFlag F_FALLBACK true) Ret)))
               Reraise)])
        Ret)).
@@ -267,6 +287,8 @@ Definition i_stat_based := Call (wrapped parse_stat).       (* name status ppid 
 Definition i_status_based := Call (wrapped read_status).    (* uids gids num_threads num_ctx_switches *)
 Definition i_exe := Call (wrapped (readlink_fb FExe)).
 Definition i_cwd := Call (wrapped (readlink_fb FCwd)).
+Definition legacy_i_exe := Call (wrapped (legacy_readlink_fb FExe)).
+Definition legacy_i_cwd := Call (wrapped (legacy_readlink_fb FCwd)).
 Definition i_cmdline :=
   Call (wrapped (seqs [acc KOpen Self FCmdline; acc KRead Self FCmdline;
                        If TEmpty (Seq (raise_if_zombie Self FStat) Ret) Ret])).
@@ -320,10 +342,12 @@ Definition f_name :=
   seqs [ i_stat_based;
          If (TParam W_LONGNAME) (Try i_cmdline (handlers [(HADZ, Skip)]) Skip) Skip; Ret ].
 Definition guess_it (on_fail : prog) := seqs [ i_cmdline; If (TParam W_GUESS) Ret on_fail ].
-Definition f_exe :=
-  seqs [ Try i_exe (handlers [(HAD, guess_it Reraise)])
+Definition f_exe_with (ie : prog) :=
+  seqs [ Try ie (handlers [(HAD, guess_it Reraise)])
              (If (TFlag F_FALLBACK) (Try (Call (guess_it Ret)) (handlers [(HAD, Skip)]) Skip) Skip);
          Ret ].
+Definition f_exe := f_exe_with i_exe.
+Definition legacy_f_exe := f_exe_with legacy_i_exe.
 Definition f_status := Try i_stat_based (handlers [(HZombie, Ret)]) Ret.
 (* Process(pid) for the process [x]: _init -> _get_ident -> _proc.create_time(monotonic=True) on a NEW
    platform object (no oneshot cache) *)
@@ -331,23 +355,40 @@ Definition new_process (x : who) (stat : fid) :=
   seqs [ SetFlag F_NOIDENT false;
          Try (Call (wrapped_at x stat (bcat x stat)))
              (handlers [(HAD, SetFlag F_NOIDENT true); (HZombie, SetFlag F_NOIDENT true); (HNSP, Raise (XNSP x))]) Skip ].
-Definition is_running_of (x : who) (stat : fid) (fg fr fo : nat) :=
+(* is_running() / _raise_if_pid_reused() of the object for process [x]; [k_gone] = what follows `self._gone = True`
+   inside is_running (normally `return False`).  The scripts describe a call on a
+   FRESH object (created just before the call, as the harness does): _gone = _pid_reused = False on entry, so
+   the two entry tests of _raise_if_pid_reused are omitted.  [fo] = the flag saying that this object's _ident is
+   (pid, None); None = the object is known to have a create time (the object under test is created before any
+   fault), in which case `self != Process(self.pid)` is False whenever the probe object has one too (PID reuse
+   itself is C01/C02's subject and not in this fault model) and the never-taken branches are not emitted. *)
+Definition is_running_of (legacy : bool) (x : who) (stat : fid) (fg fr : nat) (fo : option nat) (k_gone : prog) :=
+  let reuse := Seq (SetFlag fr true) (Raise (XNSP x)) in
+  let has_ident := match fo with Some f => If (TFlag f) reuse Ret | None => Ret end in
   Call (If (TFlag fg) Ret (If (TFlag fr) Ret
     (Try (seqs [ new_process x stat;
-                 (* self._pid_reused = self != Process(self.pid): the idents (pid, create time | None) differ when
-                    exactly one of the two objects could not read its create time ([fo]: this object could not) *)
-                 If (TFlag F_NOIDENT)
-                    (If (TFlag fo) Ret (Seq (SetFlag fr true) (Raise (XNSP x))))
-                    (If (TFlag fo) (Seq (SetFlag fr true) (Raise (XNSP x))) Ret) ])
-         (handlers [(HZombie, Ret); (HNSP, Seq (SetFlag fg true) Ret)]) Skip))).
-Definition raise_if_pid_reused_of (x : who) (stat : fid) (fg fr fo : nat) :=
-  seqs [ If (TFlag fg) (If (TFlag fr) Skip (Raise (XNSP x))) Skip;
-         If (TFlag fr) (Raise (XNSP x))
-            (Seq (is_running_of x stat fg fr fo) (If (TFlag fr) (Raise (XNSP x)) Skip)) ].
-Definition F_SNOIDENT := 10%nat. (* this object's _ident is (pid, None): never, the object is created before any fault *)
-Definition f_is_running := is_running_of Self FStat F_GONE F_REUSED F_SNOIDENT.
-Definition raise_if_pid_reused := raise_if_pid_reused_of Self FStat F_GONE F_REUSED F_SNOIDENT.
+                 (* self._pid_reused = self != Process(self.pid) *)
+                 if legacy then
+                    If (TFlag F_NOIDENT)
+                       (match fo with Some f => If (TFlag f) Ret reuse | None => reuse end)
+                       has_ident
+                 else
+                    (* since commit a4fac6f: an unreadable create time of the probe object is not PID reuse *)
+                    If (TFlag F_NOIDENT) Ret has_ident ])
+         (handlers [(HZombie, Ret); (HNSP, Seq (SetFlag fg true) k_gone)]) Skip))).
+Definition raise_if_pid_reused_of (legacy : bool) (x : who) (stat : fid) (fg fr : nat) (fo : option nat) (k_gone : prog) :=
+  Seq (is_running_of legacy x stat fg fr fo k_gone)
+      (match legacy, fo with
+       | false, None => Skip                       (* _pid_reused cannot have been set *)
+       | _, _ => If (TFlag fr) (Raise (XNSP x)) Skip
+       end).
+Definition NOW := false.         (* the current code *)
+Definition LEGACY := true.       (* the code before the C03 repairs (kept for the _refuted theorems only) *)
+Definition f_is_running := is_running_of NOW Self FStat F_GONE F_REUSED None Ret.
+Definition raise_if_pid_reused := raise_if_pid_reused_of NOW Self FStat F_GONE F_REUSED None Ret.
+Definition legacy_raise_if_pid_reused := raise_if_pid_reused_of LEGACY Self FStat F_GONE F_REUSED None Ret.
 Definition f_ppid := Call (Memo 3 (Seq raise_if_pid_reused i_stat_based)).
+Definition legacy_f_ppid := Call (Memo 3 (Seq legacy_raise_if_pid_reused i_stat_based)).
 Definition f_create_time := If (TFlag F_CTIME) Skip (Seq i_stat_based (SetFlag F_CTIME true)).
 Definition f_uids := Call (Memo 4 i_status_based).
 Definition f_cpu_times := Call (Memo 5 i_stat_based).
@@ -357,8 +398,11 @@ Definition F_HASPARENT := 7%nat. (* parent() returned a Process *)
 Definition F_PGONE := 8%nat.     (* the parent object's _gone / _pid_reused *)
 Definition F_PREUSED := 9%nat.
 Definition F_PNOIDENT := 11%nat. (* the parent object's _ident is (ppid, None) *)
+(* parent() calls _raise_if_pid_reused() itself and again through ppid(): when the first one found the process
+   gone (_gone = True) the second raises NoSuchProcess at once -- unless pid == lowest pid returned None before *)
 Definition f_parent :=
-  Call (seqs [ raise_if_pid_reused;
+  Call (seqs [ raise_if_pid_reused_of NOW Self FStat F_GONE F_REUSED None
+                 (If (TParam W_ISLOWEST) Ret (Raise (XNSP Self)));
     If (TParam W_ISLOWEST) Ret
     (seqs [ f_ppid; f_create_time;
             Try (seqs [ new_process Other FParentStat;
@@ -371,18 +415,22 @@ Definition f_parent :=
    _raise_if_pid_reused() touches the OS *)
 Definition f_parents :=
   Call (seqs [ SetFlag F_HASPARENT false; f_parent;
-               If (TFlag F_HASPARENT) (raise_if_pid_reused_of Other FParentStat F_PGONE F_PREUSED F_PNOIDENT) Skip; Ret ]).
+               If (TFlag F_HASPARENT) (raise_if_pid_reused_of NOW Other FParentStat F_PGONE F_PREUSED (Some F_PNOIDENT) Ret) Skip; Ret ]).
 (* children(recursive=False): _raise_if_pid_reused(); ppid_map(); for each child: Process(child), create times *)
-Definition ppid_map :=
-  seqs [ acc KListdir Global FRoot;
-         ForNames (Try (bcat Any FStatE) (handlers [(HFnfEsrch, Skip)]) Skip) ].
+(* ppid_map(): a pid whose stat cannot be read (gone, or refused since commit 1c63e73) is left out *)
 Definition N_CHILDREN := 0%nat.   (* pids whose stat names this process as parent *)
-Definition f_children :=
-  Call (seqs [ raise_if_pid_reused; ppid_map; LoadNames N_CHILDREN;
+Definition ppid_map_with (hs : list (hpat * prog)) :=
+  seqs [ acc KListdir Global FRoot;
+         ForNames (Try (bcat Any FStatE) (handlers hs) (Collect N_CHILDREN)) ].
+Definition ppid_map := ppid_map_with [(HFnfEsrch, Skip); (HPerm, Skip)].
+Definition children_with (check pmap : prog) :=
+  Call (seqs [ check; pmap; LoadNames;
                ForNames (Try (seqs [ new_process Other FStatE; f_create_time;
                                      Call (wrapped_at Other FStatE (bcat Other FStatE)) ])
                              (handlers [(HNSP, Skip)]) Skip);
                Ret ]).
+Definition f_children := children_with raise_if_pid_reused ppid_map.
+Definition legacy_f_children := children_with legacy_raise_if_pid_reused (ppid_map_with [(HFnfEsrch, Skip)]).
 
 (* as_dict(attrs): with self.oneshot(): for name in attrs: try meth() except (AccessDenied, ZombieProcess): ad_value *)
 Definition as_dict (ms : list prog) :=
